@@ -35,7 +35,9 @@ class StatefulLinReg(PLinReg):
     predictions (warm-start / incremental learners behave like this)."""
 
     def predict(self, X):
-        return PLinReg.predict(self, X) + 0.05 * (getattr(self, "rec_n_fit_", 1) - 1)
+        # a scale, not an offset: the correlation is computed from the variance
+        # of the residual, which ignores a constant bias
+        return PLinReg.predict(self, X) * (1.0 + 0.25 * (getattr(self, "rec_n_fit_", 1) - 1))
 
 
 def _split_seam(*arrays, **options):
